@@ -96,7 +96,7 @@ def d2(P, Q):
 
 
 def gen_case(rng, maxn=24):
-    d = rng.choice([1, 1, 2, 2, 2, 3, 3, 4])
+    d = rng.choice([1, 1, 1, 2, 2, 2, 2, 3, 3, 3, 4, 4, 5])
     prof = rng.random()
     if prof < 0.12:
         n = rng.randint(0, 3)
@@ -107,7 +107,7 @@ def gen_case(rng, maxn=24):
     style = rng.choice(STYLES)
     pts = gen_points(rng, style, n, d)
     n = len(pts)
-    mls = rng.choice([1, 1, 2, 2, 3, 4])
+    mls = rng.choice([1, 1, 1, 2, 2, 2, 3, 3, 4, 4, 6, 10])
     strategy = rng.choice(["balanced", "balanced", "fast", "random"])
     knn = []
     for _ in range(3):
@@ -307,8 +307,8 @@ WITNESSES = [
 def run(ctx):
     quick = ctx.tier == "quick"
     n_cases = 1500 if quick else 30000
-    ctx.rule = ("integer point sets of dimension 1-4, 0-24 points (thorough: up to 40), styles uniform / clustered / collinear / "
-                "axis-degenerate / duplicated / all-identical / majority-duplicate / grid; leaf sizes 1-4; strategies balanced / "
+    ctx.rule = ("integer point sets of dimension 1-5, 0-24 points (thorough: up to 40), styles uniform / clustered / collinear / "
+                "axis-degenerate / duplicated / all-identical / majority-duplicate / grid; leaf sizes 1-4 (occasionally 6, 10); strategies balanced / "
                 "fast / random with seeded numpy RNG; per case 3 kNN queries (k in 1..n+2, query on / near / far from the data) "
                 "and 2 radius queries (radius 0, a data point exactly on the sphere, random). Non-trivial = the build splits "
                 "at least once (n > leaf size); distinct = by canonical JSON of the case")
